@@ -268,6 +268,11 @@ def run_fed(argv, data, frags, env=None, timeout=180, stdout_file=None, cwd=None
                 n, pause = frags[i % len(frags)] if frags else (len(data), 0)
                 i += 1
                 n = max(1, n)
+                # bounded cost: at most 25 pauses and 3000 fragments per run, the rest goes in 64 KiB pieces
+                if i > 25:
+                    pause = 0
+                if i > 3000:
+                    n = max(n, 65536)
                 p.stdin.write(data[pos:pos + n])
                 p.stdin.flush()
                 pos += n
